@@ -129,6 +129,11 @@ def container_history(job):
         except Exception as e:  # noqa
             out.append(('exc', -1, vlib.exc_name(e)))
             continue
+        if kind == 'message':
+            try:
+                c.msh.msh_7 = '20200101'      # Message() stamps MSH-7 with now(): the two levels are built at different instants
+            except Exception:  # noqa
+                pass
         failed = None
         for i, op in enumerate(ops):
             try:
@@ -171,6 +176,26 @@ def container_jobs(rng, v, n, ex):
             k = rng.random()
             ops.append(('addseg', nm) if k < .4 else ('add', nm) if k < .7 else ('set', nm.lower(), nm + '|1'))
         jobs.append((v, kind, name, ops))
+    # maximum cardinality of a segment in its container: the same own segment added two and three times. Containers whose structure
+    # lists one child name twice are all taken (the two rows may disagree on the maximum — seed C05-h), the others by sample
+    def dups(ref):
+        names = [r[0] for r in ref[1] if gen.is_seq(r) and len(r) == 4]
+        return sorted({x for x in names if names.count(x) > 1})
+    rep_conts = []
+    for kind, name in conts:
+        ref = (lib.GROUPS if kind == 'group' else lib.MESSAGES)[name]
+        if gen.is_seq(ref) and len(ref) >= 2 and gen.is_seq(ref[1]) and dups(ref):
+            rep_conts += [(kind, name, d) for d in dups(ref) if d in segs]
+    for kind, name in rng.sample(conts, min(n, len(conts))):
+        ref = (lib.GROUPS if kind == 'group' else lib.MESSAGES)[name]
+        if gen.is_seq(ref) and len(ref) >= 2 and gen.is_seq(ref[1]):
+            own = [r[0] for r in ref[1] if gen.is_seq(r) and len(r) == 4 and r[3] == 'SEG' and r[0] in segs]
+            if own:
+                rep_conts.append((kind, name, rng.choice(own)))
+    for kind, name, nm in rep_conts:
+        for k in (2, 3):
+            how = rng.choice(['add', 'addseg'])
+            jobs.append((v, kind, name, [(how, nm)] * k))
     return jobs
 
 
